@@ -177,6 +177,7 @@ class SchedRun:
         self.init_tail = file_tail_class(self.store.log)
         self.ctl = Controller(self.store)
         self.sched = []          # (idx, action-term)
+        self.protocol = []       # deviations from the one-write-per-section protocol
         self.states_seen = [self.snapshot_state()]
         self.procs = []
         reqs = []
@@ -309,6 +310,20 @@ class SchedRun:
             self.record_commit(p, p.before)
             c.release(p)
             self.sched.append((p.idx, 'AStep'))
+            if p.at == 'append.before':
+                # a second write(2) inside one lock section: the command is not a single atomic append
+                self.protocol.append(('second_write_in_section', p.req.get('k')))
+                if self.kills > 0 or self.tears > 0:
+                    c.kill(p)                      # die between the two writes: exhibits the half-applied command
+                    self.sched.append((p.idx, 'AKill'))
+                    p.state = 'dead'
+                    st = self.snapshot_state()
+                    if st is not None:
+                        self.states_seen.append(st)
+                    return
+                while p.at in ('append.before', 'append.after'):
+                    c.release(p)
+                self.record_commit(p, p.before)
             p.state = 'unlock' if p.at == 'lock.release' else 'odd:%s' % p.at
             return
         if p.state == 'tmp':
@@ -325,6 +340,11 @@ class SchedRun:
         if p.state == 'unlock':
             c.release(p)
             self.sched.append((p.idx, 'AStep'))
+            if p.rc is None and p.at == 'lock.attempt':
+                # the command opens a SECOND lock section: it is not one transaction
+                self.protocol.append(('second_section_in_command', p.req.get('k')))
+                p.state = 'start'
+                return
             p.state = 'done' if p.rc is not None else 'odd:%s' % p.at
             return
         raise RuntimeError('cannot step process %d in state %s' % (p.idx, p.state))
@@ -347,6 +367,18 @@ class SchedRun:
                 elif x < self.kills:
                     action = 'AKill'
             self.step(p, action)
+        self.finish()
+
+    def run_order(self, order):
+        """Prescribed interleaving: each entry = one step of that process (skipped when it is finished)."""
+        self.start_all()
+        for idx in order:
+            p = self.procs[idx]
+            if p in self.live():
+                self.step(p, 'AStep')
+        for p in list(self.procs):
+            while p in self.live():
+                self.step(p, 'AStep')
         self.finish()
 
     def finish(self):
@@ -397,7 +429,7 @@ class SchedRun:
                                                      cq_events(self.final_events or []), self.final_tail)
 
     def describe(self):
-        return {'processes': [{'kind': p.kind, 'args': history.req_cli(p.req)[0] if p.req else p.kind,
+        return {'protocol': self.protocol, 'processes': [{'kind': p.kind, 'args': history.req_cli(p.req)[0] if p.req else p.kind,
                                'stdin': (history.req_cli(p.req)[1] or b'').decode('utf-8', 'replace') if p.req else None,
                                'rc': p.rc, 'state': p.state, 'stderr': p.err.decode('utf-8', 'replace')[:200]} for p in self.procs],
                 'schedule': self.sched, 'init_tail': self.init_tail, 'final_tail': self.final_tail}
